@@ -4,6 +4,7 @@
 package c08
 
 import (
+	"bytes"
 	"fmt"
 	"os"
 	"runtime"
@@ -23,8 +24,11 @@ import (
 const (
 	innerName = "inner.secret.example"
 	pubName   = "public.example"
-	// retained-memory budget for one Conn (property: "a small multiple of the maximum TLS record size")
-	memBudget = 4*(16384+256+5) + 16*1024
+	// retained-memory budget for one Conn (property: "a small multiple of the maximum TLS record size"): 8 x the largest
+	// record (or 8 x the hello when a legitimate hello spans several records, at most 64 KiB) + 16 KiB. A sealed hello is held
+	// as received, as parsed outer hello, as decrypted and as parsed inner hello and as bytes to forward.
+	recSize   = 16384 + 256 + 5
+	memBudget = 8*recSize + 16*1024
 )
 
 // op is one step of a case: client bytes (then one Read) or backend bytes (one Write).
@@ -200,6 +204,38 @@ func generate(thorough bool, emit func(kase)) {
 		}
 		b := sealed(append(echx.StdEncInner(innerName, nil, false), tlsref.OuterExtensions(0x5a5a)), []tlsref.Ext{bigExt}, nil)
 		emit(kase{Family: "sealed-inner-refs-big", Desc: "1x 15kB extension (legal)", Keys: true, First: b.Outer.Record()})
+	}
+	{ // hellos spanning several records: legitimate big ones (plain and sealed), lying lengths, empty fragments, endless fragments
+		bigPlain := baseOuter()
+		bigPlain.Exts = []tlsref.Ext{tlsref.SNI(pubName), tlsref.SupportedVersions(0x0304), tlsref.Opaque(0x6b6b, 60000)}
+		for _, k := range []bool{false, true} {
+			emit(kase{Family: "multi-record-hello", Desc: "plain 60 kB", Keys: k, First: tlsref.FragmentMax(0x0301, bigPlain.Msg())})
+		}
+		bs := sealed(append(echx.StdEncInner(innerName, []string{"h2"}, false), tlsref.Opaque(0x7a7a, 25000)), nil, nil)
+		emit(kase{Family: "multi-record-hello", Desc: "sealed, 25 kB inner", Keys: true, First: tlsref.FragmentMax(0x0301, bs.Outer.Msg())})
+		msgGood := good.Outer.Msg()
+		for _, cuts := range [][]int{{1}, {2}, {3}, {4}, {5}, {len(msgGood) - 1}, {1, 2, 3, 4, 5, 6, 7, 8}} {
+			emit(kase{Family: "multi-record-hello", Desc: fmt.Sprintf("sealed small, cuts %v", cuts), Keys: true, First: tlsref.Fragment(0x0301, msgGood, cuts...)})
+		}
+		for _, declared := range []int{65536, 65537, 1 << 20, 0xffffff} {
+			body := make([]byte, 16380)
+			first := tlsref.Record(22, 0x0301, append([]byte{1, byte(declared >> 16), byte(declared >> 8), byte(declared)}, body...))
+			full := slices.Clone(first)
+			for i := 0; i < 4; i++ {
+				full = append(full, tlsref.Record(22, 0x0301, make([]byte, 16384))...)
+			}
+			emit(kase{Family: "multi-record-hello-declared", Desc: fmt.Sprintf("declares %d, 80 kB follow", declared), Keys: true, First: full})
+			emit(kase{Family: "multi-record-hello-declared", Desc: fmt.Sprintf("declares %d, nothing follows", declared), Keys: true, First: first})
+		}
+		// a fragment followed by empty handshake records, by a non-handshake record, by 2000 one-byte fragments
+		head := tlsref.Record(22, 0x0301, msgGood[:10])
+		emit(kase{Family: "multi-record-hello-continuation", Desc: "empty fragments", Keys: true, First: append(slices.Clone(head), bytes.Repeat(tlsref.Record(22, 0x0301, nil), 3000)...)})
+		emit(kase{Family: "multi-record-hello-continuation", Desc: "application data in the middle", Keys: true, First: append(slices.Clone(head), tlsref.Record(23, 0x0303, []byte{1})...)})
+		var drip []byte
+		for _, bt := range msgGood[10:] {
+			drip = append(drip, tlsref.Record(22, 0x0301, []byte{bt})...)
+		}
+		emit(kase{Family: "multi-record-hello-continuation", Desc: "one byte per record", Keys: true, First: append(slices.Clone(head), drip...)})
 	}
 	{ // 127 references to the same extension / to many extensions
 		var many []uint16
@@ -429,7 +465,7 @@ func runCase(idx int, k kase, keys []ech.Key, measure bool) (res result) {
 	if err != nil && measure {
 		var ms1 runtime.MemStats
 		runtime.ReadMemStats(&ms1)
-		if lim := uint64(8*len(k.First) + 24*(16384+256+5)); ms1.TotalAlloc-ms0.TotalAlloc > lim {
+		if lim := uint64(8*len(k.First) + (24+countRecords(k.First))*recSize); ms1.TotalAlloc-ms0.TotalAlloc > lim {
 			fail("alloc:"+k.Family, fmt.Sprintf("NewConn allocated %d bytes for a %d-byte first flight (limit %d)", ms1.TotalAlloc-ms0.TotalAlloc, len(k.First), lim))
 		}
 	}
@@ -487,19 +523,40 @@ func runCase(idx int, k kase, keys []ech.Key, measure bool) (res result) {
 			moved += len(o.Data)
 		}
 		// (per record a few hundred bytes of bookkeeping are legitimate, and a record can be as short as 5 bytes: 88 B per byte moved)
-		if lim := uint64(88*moved + (2+len(k.Ops))*12*(16384+256+5)); ms1.TotalAlloc-ms0.TotalAlloc > lim {
+		// plus one record buffer per input record (the reader allocates a maximum-size buffer for each record it reads)
+		nrec := countRecords(k.First)
+		for _, o := range k.Ops {
+			nrec += countRecords(o.Data)
+		}
+		if lim := uint64(88*moved + ((2+len(k.Ops))*12+nrec+nrec/4)*recSize); ms1.TotalAlloc-ms0.TotalAlloc > lim {
 			fail("alloc:"+k.Family, fmt.Sprintf("the calls allocated %d bytes for %d bytes of input (limit %d): the Conn builds something much larger than a record", ms1.TotalAlloc-ms0.TotalAlloc, moved, lim))
 		}
 		harness = len(sess.T.Out)*2 + 64*len(sess.T.Writes) + sess.T.Pending() + len(k.First) + sess.HarnessBytes()
 		after := heapInUse()
-		if after > before && int(after-before)-harness > memBudget {
+		// a legitimate hello may span several records (up to 64 kB): the Conn then holds the parsed hello(s) and the bytes to forward
+		budget := 16*1024 + 8*max(recSize, min(len(k.First), 65536+64))
+		if after > before && int(after-before)-harness > budget {
 			// measure again to rule out noise: rerun the whole case
 			res.Outcome += " mem-suspect"
-			fail("memory:"+k.Family, fmt.Sprintf("Conn retains about %d bytes after the calls returned (budget %d; harness-held %d subtracted)", int(after-before)-harness, memBudget, harness))
+			fail("memory:"+k.Family, fmt.Sprintf("Conn retains about %d bytes after the calls returned (budget %d; harness-held %d subtracted)", int(after-before)-harness, budget, harness))
 		}
 		runtime.KeepAlive(sess)
 	}
 	return
+}
+
+// countRecords counts the complete records at the start of b.
+func countRecords(b []byte) int {
+	n := 0
+	for len(b) >= 5 {
+		l := int(b[3])<<8 | int(b[4])
+		if len(b) < 5+l {
+			break
+		}
+		b = b[5+l:]
+		n++
+	}
+	return n
 }
 
 func errClassShort(err error) string {
@@ -547,7 +604,7 @@ func Worker(tier string, shard, nshards int) {
 
 // Run is the parent: spawns the workers and aggregates.
 func Run(r *ev.Run) {
-	r.Rule("grammar-bounded exhaustive enumeration (E1) in 16 memory-capped (ulimit -v 4 GiB) single-threaded worker processes with a 20 s hang watchdog: (a) every sequence of <=2 (thorough 3) alternatives out of 47 well-/ill-formed variants of the extensions the parser interprets (SNI, ALPN, supported_versions, ech_outer_extensions, ECH: types 0/1/2, empty enc, empty/short payload, every header truncation, trailing bytes) in the outer hello with/without keys and inside a SEALED inner hello; (b) reference lists (missing, repeated, 127 entries, naming ECH); (c) every length field of plain/sealed/garbage hellos set to {0, true-1, true+1, max} and all pairs of fields; the message cut at every byte; (d) first record of every content type x length {0,1,5}, declared lengths up to 65535; (e) after an accepted / passed-through hello: every record over 7 content types x 5 lengths in either direction, all ordered pairs, ServerHello/HRR cut at every byte, length lies, split at every 3rd offset, illegal declared lengths written in 40 kB pieces, 3000 tiny records per call; (f) after HRR: second hello cut at every byte, every length field mutated, extra extensions. Oracles: no panic (recovered), no call returns 0,nil without consulting the transport, bytes allocated by the calls <= 88x the bytes moved + 12 records per call (TotalAlloc delta), heap retained by the Conn after the calls <= 4 records + 16 KiB (measured with forced GC, GOMAXPROCS=1, harness-held bytes subtracted, confirmed by re-execution), no call longer than 20 s. distinct = distinct case indexes with distinct bytes")
+	r.Rule("grammar-bounded exhaustive enumeration (E1) in 16 memory-capped (ulimit -v 4 GiB) single-threaded worker processes with a 20 s hang watchdog: (a) every sequence of <=2 (thorough 3) alternatives out of 47 well-/ill-formed variants of the extensions the parser interprets (SNI, ALPN, supported_versions, ech_outer_extensions, ECH: types 0/1/2, empty enc, empty/short payload, every header truncation, trailing bytes) in the outer hello with/without keys and inside a SEALED inner hello; (b) reference lists (missing, repeated, 127 entries, naming ECH); (c) every length field of plain/sealed/garbage hellos set to {0, true-1, true+1, max} and all pairs of fields; the message cut at every byte; (d) first record of every content type x length {0,1,5}, declared lengths up to 65535; (e) after an accepted / passed-through hello: every record over 7 content types x 5 lengths in either direction, all ordered pairs, ServerHello/HRR cut at every byte, length lies, split at every 3rd offset, illegal declared lengths written in 40 kB pieces, 3000 tiny records per call; (f) after HRR: second hello cut at every byte, every length field mutated, extra extensions. Oracles: no panic (recovered), no call returns 0,nil without consulting the transport, bytes allocated by the calls <= 88x the bytes moved + 12 records per call + 1 record per input record (TotalAlloc delta), heap retained by the Conn after the calls <= 8 x max(record, hello up to 64 KiB) + 16 KiB (measured with forced GC, GOMAXPROCS=1, harness-held bytes subtracted, confirmed by re-execution), no call longer than 20 s. distinct = distinct case indexes with distinct bytes")
 	r.Assume("byte noise outside the grammar is not explored (that would be fuzzing, another family)", "memory bound applies to what the Conn retains after a call returns; a single Write call may transiently hold the caller's own buffer")
 	generate(r.Thorough(), func(k kase) {
 		key := string(k.First)
